@@ -210,8 +210,8 @@ PROPS['C04'] = dict(
     assumptions=[],
 )
 PROPS['C13'] = dict(
-    id='C13', domains=['writer', 'wcont'], no_model={'wcont': True},
-    n=dict(quick=dict(writer=600, wcont=150), thorough=dict(writer=30000, wcont=5000)),
+    id='C13', domains=['writer', 'wcont', 'names'], no_model={'wcont': True, 'names': True},
+    n=dict(quick=dict(writer=600, wcont=150, names=40), thorough=dict(writer=30000, wcont=5000, names=2000)),
     theorems=[('Properties.C13', ['C13_every_file_begins_with_its_warcinfo', 'C13_fit_rule', 'C13_names_and_in_progress_state', 'C13_callback_arguments'])],
     kinds={'panic', 'warcinfo-rule', 'fit-rule', 'bad-name', 'open-file-left', 'callback-args', 'unreadable-file'},
     rule='writer domain (see C04): files are read back sequentially: first record is the warcinfo naming the file, exactly one, all others carry its id; no record appended beyond the limit to a file that already holds data (scaled declared length); names unique, compression suffix iff compressed, no in-progress suffix after Close; callback gets final name, true size, warcinfo id',
